@@ -48,6 +48,9 @@ CORPUS = [
     (["10 GOSUB 100:PRINT A;B;C:END", "100 FOR A=1 TO 2", "110 FOR B=10 TO 1 STEP -2", "120 FOR C=1 TO 9", "130 IF C=4 THEN 150", "140 NEXT C,B",
       "150 NEXT A", "160 RETURN"], []),
     (["10 FOR I%=1 TO 2:FOR J%=32766 TO 32767:IF J%=32767 THEN 30", "20 NEXT J%", "30 NEXT I%:PRINT I%;J%"], []),
+    # NEXT adds the step with the checked Integer sum: a loop over an Integer variable ends in OVERFLOW at the limit
+    (["10 FOR I%=32766 TO 32767", "20 PRINT I%;", "30 NEXT I%", '40 PRINT "DONE";I%'], []),
+    (["10 FOR I%=32000 TO 32001 STEP 1000:NEXT:PRINT I%"], []),
     (["0 X=X+1:PRINT X;", "5 IF 0 THEN PRINT \"NEVER\"", "10 IF X<3 THEN 0", "20 PRINT \"DONE\""], []),
 ]
 
